@@ -25,7 +25,7 @@ ASSUMPTIONS = [
 RULE = ('all lists of 0..N awaitables (N=4 quick, 5 thorough), each returning or raising one of '
         '{Base(Exception), Sub(Base), Other(Exception), BOnly(BaseException), CancelledError} after a delay; delays are '
         'a permutation-inducing assignment (every finishing permutation of every outcome list up to N=3, '
-        'random permutations beyond), given as coroutines, tasks or futures; `only` over the seven classes; '
+        'random permutations beyond), given as coroutines, tasks or futures; `only` over the seven classes and four tuples of classes (the empty tuple included), `aws` as a list or a one-shot generator; '
         'run under a virtual clock; distinct = distinct (outcomes, delays, only, kinds) with >= 2 awaitables')
 
 
@@ -52,8 +52,10 @@ class BOnly(BaseException):
 CLASSES = [BaseException, Exception, Base, Sub, Other, BOnly, asyncio.CancelledError]
 RAISABLE = [2, 3, 4, 5, 6]       # class ids an awaitable may raise (6: it ends cancelled, e.g. an awaited task that
                                  # its owner cancelled - for gather(return_exceptions=True) one more failure)
-NCLS = len(CLASSES)
-SUBTAB = ';'.join(','.join('1' if issubclass(c, d) else '0' for d in CLASSES) for c in CLASSES)
+# what `only` may be: one of the classes, or a tuple of classes (isinstance accepts both), the empty tuple included
+ONLY = CLASSES + [(Base, BOnly), (Other, asyncio.CancelledError), (Sub, Exception), ()]
+NCLS = len(ONLY)
+SUBTAB = ';'.join(','.join('1' if issubclass(c, d) else '0' for d in ONLY) for c in CLASSES)
 
 
 def run_impl(case, which):
@@ -84,7 +86,9 @@ def run_impl(case, which):
                 aws.append(asyncio.ensure_future(co))
             else:
                 aws.append(co)
-        only = CLASSES[case['only']]
+        if (len(specs) + case['only']) % 3 == 0:
+            aws = (a for a in aws)          # `aws` is any iterable: a one-shot generator will do
+        only = ONLY[case['only']]
         if which == 'gather':
             out = []
             first_t = None
@@ -120,7 +124,7 @@ def parse_model(ans):
 
 
 def spec(case):
-    only = CLASSES[case['only']]
+    only = ONLY[case['only']]
     return [(i, c) for i, (d, c, _) in enumerate(case['aws']) if c is not None and issubclass(CLASSES[c], only)]
 
 
